@@ -327,11 +327,10 @@ func cmdCheck(o opts, prop, tier string) int {
 	}
 	var sel []*Obligation
 	for _, ob := range all {
-		for _, p := range ob.Props {
-			if p == prop {
-				sel = append(sel, ob)
-				break
-			}
+		// the no-panic sweep relies on what the wrappers, getters and accessors answer ("never (nil, nil)", "the error is
+		// handed through"): their clauses are obligations of C20 too, whatever property they were written for
+		if hasProp(ob.Props, prop) || (prop == "C20" && infrastructureClause(ob.ID) && ob.Kind != "safety" && !knownElsewhere(loadKnown(o.verif), ob.ID, prop)) {
+			sel = append(sel, ob)
 		}
 	}
 	for _, m := range e.specErrors {
